@@ -348,7 +348,7 @@ mutual
            let st := if lazy then enterHere src ctx (asyncRetAcct ty g2) else startSrc cfg src ctx g2
            (match st with
             | .go r0 inh0 c0 g3 =>
-              (match runSteps cfg steps (src == .unit) lazy c0 r0 inh0 g3 with
+              (match runSteps cfg steps (src == .unit) lazy (if lazy then c0 else ctx) r0 inh0 g3 with
                | .done r' _ c' g4 =>
                  let g5 := if lazy then g4 else asyncRetAcct ty g4
                  .done r' own (if lazy then c' else ctx) (asyncDoneAcct ty g5)
@@ -467,7 +467,7 @@ def settle (st : State) (o : Out) : State :=
 
 def started (cfg : Cfg) (st : State) (steps : List Step) (hd flow : Bool) (s : Started) : State :=
   match s with
-  | .go r inh c g => settle st (runSteps cfg steps hd flow c r inh g)
+  | .go r inh c g => settle st (runSteps cfg steps hd flow (if flow then c else none) r inh g)
   | .wait w inh g => settle st (.parked ⟨w, inh, steps, []⟩ g)
   | .crash g => settle st (.crash g)
 
